@@ -6,6 +6,7 @@ import (
 	"fmt"
 	"os"
 	"path/filepath"
+	"runtime/debug"
 	"sort"
 	"strconv"
 	"strings"
@@ -49,6 +50,23 @@ func main() {
 	outdir := flag.String("outdir", "", "directory for violation reports (default <verif>/out)")
 	mutants := flag.String("mutants", "", "mutant-corpus result file to include in the evidence (thorough)")
 	flag.Parse()
+	defer func() {
+		// a rule that panics has met code outside what it understands: the property is undecided, not held
+		if rec := recover(); rec != nil {
+			fmt.Printf("-: %s: kind=undecided construct=analyser: internal error while analysing the tree: %v\n%s\n", *prop, rec, debug.Stack())
+			if *prop != "" {
+				od := filepath.Join(*verif, "out")
+				if *outdir != "" {
+					od = *outdir
+				}
+				_ = os.MkdirAll(od, 0o755)
+				rp := filepath.Join(od, *prop+".violations.json")
+				_ = os.WriteFile(rp, []byte(fmt.Sprintf("{\"property\":%q,\"internal_error\":%q}\n", *prop, fmt.Sprint(rec))), 0o644)
+				fmt.Printf("VIOLATION property=%s replay=%s\n", *prop, rp)
+			}
+			os.Exit(1)
+		}
+	}()
 
 	seed := 0
 	if s := os.Getenv("VERIF_SEED"); s != "" {
@@ -80,6 +98,26 @@ func main() {
 	if err := resolveRenames(p, *verif); err != nil {
 		fmt.Printf("-: load: kind=undecided: reference inventory: %v\n", err)
 		os.Exit(1)
+	}
+	if refInv, err := readInventory(filepath.Join(*verif, "ref", "functions.tsv")); err == nil && *gen == "" {
+		if ov := normalizeNewHelpers(p, refInv); len(ov) > 0 {
+			if p2, err := LoadOverlay(*repo, *tests, env, ov); err == nil {
+				p = p2
+				normalizeNotes = append(normalizeNotes, fmt.Sprintf("the analysis ran on an overlay of %d file(s) with the new helpers inlined; reported line numbers refer to the overlay", len(ov)))
+				if os.Getenv("KMIPSA_DUMP_OVERLAY") != "" {
+					for fn, b := range ov {
+						_ = os.WriteFile(filepath.Join(os.Getenv("KMIPSA_DUMP_OVERLAY"), filepath.Base(fn)), b, 0o644)
+					}
+				}
+			} else {
+				normalizeNotes = append(normalizeNotes, fmt.Sprintf("helper normalisation dropped: the overlay does not load (%v)", err))
+				if os.Getenv("KMIPSA_DUMP_OVERLAY") != "" {
+					for fn, b := range ov {
+						_ = os.WriteFile(filepath.Join(os.Getenv("KMIPSA_DUMP_OVERLAY"), filepath.Base(fn)), b, 0o644)
+					}
+				}
+			}
+		}
 	}
 	if *gen == "registry" {
 		reg := BuildRegistry(p)
@@ -123,6 +161,9 @@ func main() {
 		r.Infof("anchor resolution: %s", n)
 	}
 	r.Extra["renamed_anchors"] = len(renameNotes)
+	for _, n := range normalizeNotes {
+		r.Infof("helper normalisation: %s", n)
+	}
 	f(r, *verif)
 	if *mutants != "" {
 		if b, err := os.ReadFile(*mutants); err == nil {
